@@ -15,7 +15,7 @@ LEVEL_TEXT = ('every combination of destination kind, trashed kind, --overwrite,
 LEVEL_NOTE = 'trusted: CPython/shutil, tmpfs, the snapshot comparer; names and contents outside the alphabet are not covered'
 RULE = ('full Cartesian product of destination kind (absent, regular file, empty dir, non-empty dir, '
         'symlink->file, symlink->dir, dangling symlink) x trashed kind (6) x --overwrite x selection '
-        'shape (single / "0,1" with first or second blocked / "0-1") x --sort; every point executed '
+        'shape (single / "0,1" with first or second blocked / "0-1") x --sort; plus the same location trashed twice and both indices chosen in one run (parent kept / removed); every point executed '
         'on the real trash-put + trash-restore; non-trivial = the run reached the existence probe '
         '(listing printed and an index chosen), distinct = outcome class x dest x kind x overwrite')
 DESTS = ['absent', 'file', 'emptydir', 'dir', 'lfile', 'ldir', 'ldang']
@@ -36,6 +36,12 @@ def sorts(tier):
 
 def cases(tier):
     out = []
+    for so in sorts(tier):
+        for ow in (0, 1):
+            for k in scen.KINDS:
+                for var in ('parent-kept', 'parent-removed'):
+                    for reply in ('0,1', '0-1', '1,0'):
+                        out.append({'part': 'twice', 'kind': k, 'ow': ow, 'sort': so, 'var': var, 'reply': reply})
     for so in sorts(tier):
         for sel in SELS:
             for ow in (0, 1):
@@ -61,7 +67,62 @@ def plant(W_, path, dest):
         W_.link(path, '/home/u/nothing-here')
 
 
+def run_twice(c):
+    """the same original location trashed twice (two versions); both indices chosen in ONE run: the second restore
+    finds the destination occupied by the first one and must refuse (or replace it under --overwrite)"""
+    import shutil
+    D = W + '/sub'
+    path = D + '/b'
+    Wd = scen.base_world()
+    Wd.dir(D)
+    scen.add_entry(Wd, path, c['kind'], tag=' v1')
+    with cell.Sandbox(Wd.spec()) as sb:
+        v1 = sb.snapshot()
+        r = sb.run(['trash-put', 'b'], now='2024-01-01T10:00:00', cwd=D)
+        W2 = scen.base_world()
+        W2.nodes, W2.order = {}, []
+        scen.add_entry(W2, path, 'file' if c['kind'] != 'file' else 'tree', tag=' v2')
+        world.build(sb.root, [W2.nodes[p] for p in W2.order if p == path or p.startswith(path + '/')])
+        v2 = sb.snapshot()
+        r = sb.run(['trash-put', 'b'], now='2024-01-02T10:00:00', cwd=D)
+        if c['var'] == 'parent-removed':
+            shutil.rmtree(sb.root + D)
+        before = sb.snapshot()
+        argv = ['trash-restore', '--sort', c['sort']] + (['--overwrite'] if c['ow'] else []) + [W]
+        r = sb.run(argv, stdin=c['reply'] + '\n', cwd='/')
+        after = sb.snapshot()
+    listing = scen.parse_restore_listing(r.out)
+    detail = {'argv': argv, 'reply': c['reply'], 'exit': r.exit, 'err': r.err[-300:], 'listing': listing}
+    if len(listing) != 2:
+        return {'verdict': 'dontcare', 'klass': 'twice:not-both-listed', 'detail': detail}
+    order = [int(x) for x in c['reply'].replace('-', ',').split(',')]
+    ver = {'2024-01-01 10:00:00': v1, '2024-01-02 10:00:00': v2}
+    first_v, second_v = ver[listing[order[0]][1]], ver[listing[order[1]][1]]
+    infos, pays = world.pairs(after, TD)
+    dims = 'twice|%s|kind=%s|ow=%d|%s' % (c['var'], c['kind'], c['ow'], c['reply'])
+    at_first = world.same_entry(first_v, path, after, path)
+    at_second = world.same_entry(second_v, path, after, path)
+    if not c['ow']:
+        ok = at_first and r.exit != 0 and len(infos) == 1 and len(pays) == 1
+        if ok:
+            return {'verdict': 'ok', 'klass': 'twice:second-refused', 'nontrivial': dims, 'detail': detail}
+        what = 'clobbered-entry-restored-earlier-in-the-same-run' if not at_first else 'second-restore-not-refused-cleanly'
+        return {'verdict': 'viol', 'sig': 'C06|%s|ow=0' % what, 'klass': what, 'nontrivial': dims,
+                'detail': dict(detail, at_first=at_first, at_second=at_second, left=[sorted(infos), sorted(pays)])}
+    def dirlike(v):
+        return v[path][0] == 'd' or (v[path][0] == 'l' and v[path][1].endswith('/tgt/dir'))
+    if dirlike(first_v) or dirlike(second_v):
+        # don't-care class of the property: --overwrite onto a directory (or a link to one): shutil.move puts the entry inside it
+        return {'verdict': 'dontcare', 'klass': 'twice:overwrite-involving-directory', 'detail': detail}
+    if at_second and r.exit == 0 and not infos and not pays:
+        return {'verdict': 'ok', 'klass': 'twice:second-replaced-first', 'nontrivial': dims, 'detail': detail}
+    return {'verdict': 'viol', 'sig': 'C06|overwrite-did-not-replace|twice|kind=%s' % c['kind'], 'klass': 'twice-overwrite-failed', 'nontrivial': dims,
+            'detail': dict(detail, at_first=at_first, at_second=at_second)}
+
+
 def run_case(c):
+    if c.get('part') == 'twice':
+        return run_twice(c)
     first = c['sel'] in ('single', 'comma-first', 'range-first')
     multi = c['sel'] != 'single'
     bname = 'b' if first else 'z'
